@@ -168,7 +168,14 @@ class Check(common.Check):
                 lv['rates'] = list(shared)
             case['shared_rates'] = True
         if rng.random() < 0.35:
-            case['specs'] = {p['n']: rng.choice(VALS) for p in ctl if rng.random() < 0.5}
+            case['specs'] = {p['n']: rng.choice(VALS + [0, 0, 0]) for p in ctl if rng.random() < 0.5}
+            # specs whose minval is not 0 (a default of 0 must stay 0), explicit and named ones
+            case['spec_min'] = {n: rng.choice([-1, -20, 0.5, 20]) for n in case['specs'] if rng.random() < 0.5}
+            case['spec_named'] = {}
+            for n in list(case['specs']):
+                if rng.random() < 0.2:
+                    case['spec_named'][n] = rng.choice(['pan', 'bipolar', 'detune'])
+                    case['specs'][n] = 0
         if ctl and rng.random() < 0.6:
             for vi in range(rng.randint(1, 3)):
                 r = rng.random()
@@ -193,6 +200,8 @@ class Check(common.Check):
                     pairs.append([p['n'], vals])
                 if rng.random() < 0.07:
                     pairs.append(['nosuch', 1])
+                if rng.random() < 0.15:
+                    pairs = []          # a variant without overrides is the plain defaults under another name
                 case['variants'].append([vname, pairs])
         if rng.random() < 0.6:
             topctl = I.level_params(top)
@@ -609,7 +618,7 @@ def prune_refs(c):
     names = {p['n'] for lv in I.preorder(c['top']) for p in lv['params']}
     for v in c.get('variants') or []:
         v[1] = [pr for pr in v[1] if pr[0] in names or pr[0] == 'nosuch']
-    c['variants'] = [v for v in (c.get('variants') or []) if v[1]]
+    c['variants'] = [v for v in (c.get('variants') or [])]
     if c.get('call') is not None:
         c['call']['kwargs'] = [kv for kv in c['call']['kwargs'] if kv[0] in names]
         c['call']['args'] = c['call']['args'][:len(I.level_params(c['top'])) + 1]
